@@ -76,15 +76,18 @@ SHIFTS = {'lshift': operator.lshift, 'rshift': operator.rshift}
 ISHIFTS = {'lshift': operator.ilshift, 'rshift': operator.irshift}
 
 BITSTRING_KINDS = ['Bits', 'BitArray', 'ConstBitStream', 'BitStream']
-PROMOTABLE = ['str', 'hexstr', 'bytes', 'bytearray', 'memoryview', 'list', 'tuple', 'gen', 'truthy', 'truthy-iter', 'bitarray'] + util.SUBCLASS_KINDS
+PROMOTABLE = ['str', 'hexstr', 'bytes', 'bytearray', 'memoryview', 'list', 'tuple', 'gen', 'truthy', 'truthy-iter', 'bitarray'] + util.SUBCLASS_KINDS + ['failing-iter']
 BYTE_KINDS = ('bytes', 'bytearray', 'memoryview', 'bytes-sub', 'bytearray-sub', 'memoryview-ro')
-REFLECTABLE = {'str', 'hexstr', 'bytes', 'bytearray', 'memoryview', 'list', 'tuple', 'gen', 'truthy', 'truthy-iter'} | (set(util.SUBCLASS_KINDS) - {'frozenbitarray'})
+REFLECTABLE = {'str', 'hexstr', 'bytes', 'bytearray', 'memoryview', 'list', 'tuple', 'gen', 'truthy', 'truthy-iter'} | (set(util.SUBCLASS_KINDS) - {'frozenbitarray'}) | {'failing-iter'}
 ROUTES = ['bin', 'bin', 'slice', 'bytes', 'auto', 'file', 'file-limited', 'frozenbitarray', 'frozenbitarray-kw', 'bitarray-kw',
           'memoryview-ro']
 UINT_LIMIT = 257
 
 
 # ---- the two independent models ---------------------------------------------------------------
+FAILS = ('exc', ('OperandFailure',))      # an iterable operand that fails while it is read: the caller's exception comes out
+
+
 def model_binary(a: str, b: str, op: str):
     if len(a) != len(b):
         return ('exc', ('ValueError',))
@@ -321,7 +324,7 @@ class Battery:
                    'equal-length' if len(b) == self.L else 'unequal-length')
             ocat = kind if kind in ('self', 'bitarray') else 'bitstring' if kind in CLASSES else 'promotable'
             iclass = f'{rel},{ocat}-operand'
-            exp = model_binary(self.a, b, opk)
+            exp = model_binary(self.a, b, opk) if kind != 'failing-iter' else FAILS
             got = call(lambda: f(self.s, o))
             self.value(opk, 'plain', iclass, kind, got, exp, self.cls, (self.s, o))
             self.frame(opk, 'plain', iclass, arg)
@@ -330,7 +333,7 @@ class Battery:
                 form = 'reflected' if kind in REFLECTABLE else 'swapped'
                 arg = build_arg(spec, self.s)
                 o = arg[0]
-                exp = model_binary(b, self.a, opk)
+                exp = model_binary(b, self.a, opk) if kind != 'failing-iter' else FAILS
                 got = call(lambda: f(o, self.s))
                 self.value(opk, form, iclass, kind, got, exp, self.cls if form == 'reflected' else CLASSES[kind],
                            (self.s, o))
@@ -406,7 +409,7 @@ class Battery:
                        'equal-length' if len(b) == L else 'unequal-length')
                 ocat = kind if kind in ('self', 'bitarray') else 'bitstring' if kind in CLASSES else 'promotable'
                 iclass = f'{rel},{ocat}-operand'
-                exp = model_binary(m, b, opk)
+                exp = model_binary(m, b, opk) if kind != 'failing-iter' else FAILS
                 f = IOPS[opk]
                 got = call(lambda: f(t, o))
             else:
